@@ -630,8 +630,11 @@ class Program:
             for st in blk.stmts:
                 ctx.steps += 1
                 ctx.dest_ty = f.local_tys.get(st.place.local) if not st.place.proj else None
-                val = self.rvalue(ctx, f, st.rv, operand, place_ref)
-                place_ref(st.place).set(val)
+                try:
+                    val = self.rvalue(ctx, f, st.rv, operand, place_ref)
+                    place_ref(st.place).set(val)
+                except (IndexError, AttributeError, TypeError, KeyError) as e:
+                    raise Unsupported(f"executor error {type(e).__name__}: {e} at `{st.text[:160]}` in {f.name}:{bb}")
             t = blk.term
             ctx.steps += 1
             if ctx.steps > ctx.max_steps:
@@ -858,7 +861,9 @@ class Program:
         if k == "array":
             return Adt("array", None, [operand(a) for a in rv[1]])
         if k == "closure":
-            return Closure(rv[1], [operand(o) for _, o in rv[2]], f.name, dict(ctx.tyenv))
+            caps = [operand(o) for _, o in rv[2]]
+            caps = self._recover_captures(ctx, f, rv, caps, place_ref)
+            return Closure(rv[1], caps, f.name, dict(ctx.tyenv))
         if k == "cast":
             return operand(rv[1])
         if k == "binop":
@@ -872,6 +877,71 @@ class Program:
                 return len(a.items) if hasattr(a, "items") else len(a)
             raise Unsupported("unop " + rv[1])
         raise Unsupported("rvalue " + k)
+
+    def _closure_fn(self, span, parent):
+        cands = [(name, fn) for name, fn in self.closure_fns if span in fn.header]
+        if len(cands) > 1 and parent:
+            c2 = [(n, fn) for n, fn in cands if fn.name.startswith(parent + "::{closure#")]
+            cands = c2 or cands
+        return cands[0][1] if len(cands) == 1 else None
+
+    def _recover_captures(self, ctx, f, rv, caps, place_ref):
+        """rustc's MIR printer zips the captured *variables* with the capture operands, so with disjoint field capture
+        (`move |..| x.a .. x.b`) only the first operand per variable is printed.  The closure body's debug info
+        (`debug x__a => (_1.0: T)`, `debug x__b => (_1.1: U)`) names every capture: the missing ones are re-derived from
+        the printed sibling's place."""
+        span = rv[1][len("{closure@"):-1]
+        body = self._closure_fn(span, f.name)
+        if body is None:
+            return caps
+        ups = []
+        for name, place in body.debug.items():
+            m = re.match(r"\(\*?\(?_1\.(\d+): ", place) or re.match(r"\(_1\.(\d+): ", place)
+            if m:
+                ups.append((int(m.group(1)), name))
+        ups.sort()
+        n = (ups[-1][0] + 1) if ups else 0
+        if n <= len(caps) or not rv[2]:
+            return caps
+        byidx = dict(ups)
+        out = [None] * n
+        # printed captures appear in capture order of their variables; map each to the first capture slot of its variable
+        printed = {}
+        for (fname, op), val in zip(rv[2], caps):
+            slots = [i for i, nm in ups if nm.split("__")[0] == fname]
+            if not slots:
+                raise Unsupported(f"closure captures of {rv[1]}: no debug entry for {fname}")
+            out[slots[0]] = val
+            printed[fname] = (op, slots[0])
+        for i, nm in ups:
+            if out[i] is not None:
+                continue
+            var = nm.split("__")[0]
+            if var not in printed:
+                raise Unsupported(f"closure captures of {rv[1]}: capture {nm} not recoverable")
+            op, i0 = printed[var]
+            depth0 = len(byidx[i0].split("__")) - 1
+            if op.place is None:
+                raise Unsupported(f"closure captures of {rv[1]}: constant sibling")
+            proj = list(op.place.proj)
+            fields_seen = 0
+            while proj and fields_seen < depth0:
+                if proj[-1][0] == "field":
+                    fields_seen += 1
+                proj.pop()
+            from .parse import Place as _Place
+            base = place_ref(_Place(op.place.local, proj)).get()
+            v = base
+            for fld in nm.split("__")[1:]:
+                while isinstance(v, Ref):
+                    v = v.get()
+                if not isinstance(v, Adt):
+                    raise Unsupported(f"closure captures of {rv[1]}: field {fld} of {v!r}")
+                v = v.fields[self.field_index(v.ty, fld)]
+            if op.kind == "copy" or rv[2][0][1].kind == "copy":
+                pass
+            out[i] = v
+        return out
 
     def binop(self, op, a, b, dest_ty=None):
         sym = is_sym(a) or is_sym(b)
